@@ -15,12 +15,12 @@ META = {
     "title": "variance / std-dev / std-err / MoE of proportions",
     "bounds": {
         "quick": {"slice": "CAT(3) x CAT(3), weighted counts free reals; 0-2 insertions per dimension (sum subtotal, difference, overlapping addends), any anchors",
-                  "strand": "CAT(3..4) with sum and difference insertions; MR(2) strand", "pattern mode": "CAT x MR, MR x CAT (2 items) ordinary cells",
+                  "strand": "CAT(3..4) with sum and difference insertions; MR(2) strand", "pattern mode": "CAT x MR, MR x CAT (2 items) ordinary cells", "wire-cell mode": "MR(2) x MR(2), MR(3) x CAT(3)",
                   "data": "all weighted counts >= 0"},
-        "thorough": {"slice": "CAT(3) x CAT(4), up to 2 insertions per dimension incl. difference x difference", "strand": "CAT(5)", "data": "all counts >= 0"},
+        "thorough": {"slice": "CAT(3) x CAT(4), up to 2 insertions per dimension incl. difference x difference", "strand": "CAT(5)", "wire-cell mode": "MR(3) x MR(3), CAT(4) x MR(4), MR(5) strand", "data": "all counts >= 0"},
     },
     "assumptions": ["weighted counts w >= 0 (cell level; C01/C02 link cells and bases to respondents)", "1.959964 is the binary float constant of the library"],
-    "outside": ["MR x MR variances (81 pattern masses: the radical VCs are inconclusive in z3 within 40 s, so not claimed)", "sizes beyond the bounds", "categorical-date wave differences (C04)"],
+    "outside": ["MR x MR variances over answer-pattern masses (81 masses: the radical VCs are inconclusive in z3 within 40 s); they are claimed over free wire cells instead", "sizes beyond the bounds", "categorical-date wave differences (C04)"],
 }
 
 
@@ -156,10 +156,11 @@ def strand_obs(eng, n=3, ins=()):
             Obs("table_proportion_moes", part.table_proportion_moes, C.to_array(moe))]
 
 
-def mr_pair(eng, rows, cols):
-    """ordinary cells with multiple-response dimensions (respondent-level masses): variance = p(1-p) over the cell's own base"""
+def mr_pair(eng, rows, cols, wire=False):
+    """ordinary cells with multiple-response dimensions (respondent-level masses, or free wire cells): variance = p(1-p) over the cell's own base"""
     from .c02 import bases_matrix
-    world = C.World(eng, [rows, cols] if cols is not None else [rows], unweighted_concrete=2)
+    from .wire import world_for
+    world = world_for(eng, [rows, cols] if cols is not None else [rows], wire, unweighted_concrete=2)
     part = Cube(world.response(assume_weighted=True)).partitions[0]
     if cols is None:
         rax = world.axes[0]
@@ -215,7 +216,12 @@ def specs(tier):
     add("mr strand", "mr_pair", dict(rows=V("mr", "a", 2), cols=None))
     add("cat x mr", "mr_pair", dict(rows=V("cat", "a", 2, (1,)), cols=V("mr", "b", 2)))
     add("mr x cat", "mr_pair", dict(rows=V("mr", "a", 2), cols=V("cat", "b", 2, (0,))))
+    add("wire mr x mr", "mr_pair", dict(rows=V("mr", "a", 2), cols=V("mr", "b", 2), wire=True))
+    add("wire mr3 x cat3", "mr_pair", dict(rows=V("mr", "a", 3), cols=V("cat", "b", 3, (1,)), wire=True))
     if tier == "thorough":
+        add("wire mr3 x mr3", "mr_pair", dict(rows=V("mr", "a", 3), cols=V("mr", "b", 3), wire=True))
+        add("wire cat4 x mr4", "mr_pair", dict(rows=V("cat", "a", 4, (2,)), cols=V("mr", "b", 4), wire=True))
+        add("wire mr5 strand", "mr_pair", dict(rows=V("mr", "a", 5), cols=None, wire=True))
         add("slice 3x4 two insertions each", "slice_obs", dict(ncols=4, row_ins=[S("r12", [1, 2]), D("r3-1", [3], [1], anchor="top")],
                                                                col_ins=[S("c14", [1, 4], anchor=2), D("c23-4", [2, 3], [4])]))
         add("strand 5", "strand_obs", dict(n=5, ins=[S("s", [1, 2, 3]), D("d", [5], [1, 2], anchor=3)]))
